@@ -29,7 +29,7 @@ type c16Case struct {
 	Challenge string `json:"challenge"`
 	Password  int    `json:"password_index"`
 	Aux       int    `json:"aux_config"`
-	Callback  int    `json:"callback"`                  // 0 registered, 1 nil, 2 error for the main address
+	Callback  int    `json:"callback"`                  // 0 registered, 1 nil, 2 error for the main address, 3 error together with a non-empty string
 	Prior     string `json:"prior_challenge,omitempty"` // an earlier attempt on the same Session got this challenge, then the link dropped
 	Order     int    `json:"line_order,omitempty"`      // 0: SID, ;PQ, prompt; 1: ;PQ, SID, prompt; 2: SID, ;PQ, SID, prompt; 3: SID, comment, ;PQ, comment, prompt
 }
@@ -74,11 +74,14 @@ func c16Judge(c c16Case) (string, string, [16]byte) {
 			s.AddAuxiliaryAddress(fbb.AddressFromString(a.Addr))
 		}
 		switch c.Callback {
-		case 0, 2:
+		case 0, 2, 3:
 			s.SetSecureLoginHandleFunc(func(addr fbb.Address) (string, error) {
 				if addr.Addr == "N0LOGIN" {
 					if c.Callback == 2 {
 						return "", errors.New("no password available")
+					}
+					if c.Callback == 3 { // an aborted prompt: what was typed so far comes with the error
+						return "Tr0ub", errors.New("prompt aborted")
 					}
 					return pw, nil
 				}
@@ -256,7 +259,7 @@ func C16(args []string) {
 			for _, a := range []int{0, 4, 5} { // a second attempt on the same Session is answered for its own challenge
 				judge(c16Case{Challenge: challenges[i], Password: i % len(c16Passwords), Aux: a, Prior: "91700346"})
 			}
-			for cb := 1; cb <= 2; cb++ {
+			for cb := 1; cb <= 3; cb++ {
 				for _, a := range []int{0, 1, 5} {
 					judge(c16Case{Challenge: challenges[i], Password: i % len(c16Passwords), Aux: a, Callback: cb})
 				}
